@@ -83,6 +83,20 @@ Theorem c15_no_criteria : forall inner hs sels pol dflt,
 Proof. exact no_criteria1. Qed.
 Print Assumptions c15_no_criteria.
 
+(* C05's statements on top of subset balancing: whatever the criteria and the fallback, the returned host is a
+   host of the cluster, and healthy whenever the inner policy only returns healthy hosts *)
+Theorem c15_subset_member : forall inner, (forall l h, inner l = Some h -> In h l) ->
+  forall hs sels pol dflt crit h,
+  (choose_host inner (make1 hs sels pol dflt) crit = Some h \/
+   choose_host inner (make2 hs sels pol dflt) crit = Some h) -> In h hs.
+Proof. exact subset_member. Qed.
+Print Assumptions c15_subset_member.
+
+Theorem c15_subset_healthy : forall inner, (forall l h, inner l = Some h -> shealthy h = true) ->
+  forall b crit h, choose_host inner b crit = Some h -> shealthy h = true.
+Proof. exact subset_healthy. Qed.
+Print Assumptions c15_subset_healthy.
+
 (* non-vacuity: the Envoy-style example - hosts with partial metadata, nested selectors, a hit, a miss *)
 Example c15_example :
   let hs := [mkSH 0 [(1, 1); (2, 1)] true; mkSH 1 [(1, 1); (2, 2)] true; mkSH 2 [(1, 2)] true; mkSH 3 [] true] in
